@@ -9,8 +9,8 @@ META = {
     "technique": "Rocq proof of canonicity for the three rule families (k-ary BDD/MTBDD/TDD, complement-edge, zero-suppressed) on every well-formed table, with the well-formedness checker proved to decide WF; correspondence: after every step of generated histories the real manager is lifted to a snapshot on which the extracted checker and interpreters are run (handle equality vs. value-table equality over all handle pairs, ==/Hash/Ord)",
     "category": "proof",
     "design_ref": "DESIGN.md section 5, C01",
-    "level_text": "Theorems (coq/Props/C01.v): on every snapshot satisfying the executable well-formedness predicate wf_full_b (proved equivalent to the Prop WFfull), two handles are the same edge iff their interpretations agree on all assignments — for BDD/MTBDD/TDD (k-ary rule), BCDD (complement edges, then-edge regular) and ZBDD (zero-suppression, Boolean view over all levels). History-independence is obtained by checking wf_full_b on the real manager after every step of every explored history (exhaustive: all 256 three-variable functions built by two routes under all variable orders with gc/drop/reorder in between; random histories on 3..7 variables mixing apply, clone/drop, gc, add_vars, set_var_order), together with the direct comparison of ==, Hash and Ord against value-table equality for all handle pairs.",
-    "level_note": "Trusted: Coq kernel, extraction, OCaml driver, Rust harness, public accessor API. The theorem is per snapshot; that every reachable manager state is well-formed is checked on the explored histories (C03's predicate), not proved for the Rust code. Concurrency is C07.",
+    "level_text": "Theorems (coq/Props/C01.v): on every snapshot satisfying the executable well-formedness predicate wf_full_b (proved equivalent to the Prop WFfull), two handles are the same edge iff their interpretations agree on all assignments — for BDD/MTBDD/TDD (k-ary rule), BCDD (complement edges, then-edge regular) and ZBDD (zero-suppression, Boolean view over all levels). History-independence is obtained by checking wf_full_b on the real manager after every step of every explored history (exhaustive: all 256 three-variable functions built by two routes under all variable orders with gc/drop/reorder in between; random histories on 3..7 variables mixing apply, clone/drop, gc, add_vars, set_var_order), together with the direct comparison of ==, Hash and Ord against value-table equality for all handle pairs. TDD (package TDDx, theorems C01_tdd_*): on every snapshot accepted by td_ok_b two references / handles are equal IFF they denote the same three-valued function of the VARIABLES (tfun_of) IFF their value tables over the 3^n assignments are equal (td_vtable, DD/TddAudit.v: 3^n entries in the index order the driver uses, none undefined; C01_tdd_canon_tfun / _vtable / _handles / _vtable_shape); after ANY history of the TDD manager state machine Mgr/TddHist.v (constants, variables, not, 8 connectives, ite, cofactors, clone / drop, gc, add_vars; any edge order, any lossy cache) two slots hold the same edge iff same function (C01_tdd_hist_canonical, _vtable, _inv_canonical), every call stores the fixed table applied to the operands' functions (C01_tdd_hist_spec) and its result is the only edge with that function (C01_tdd_hist_result_unique). Tie: kind tdd of h_dd: identity cases (functions derived twice through identities of the fixed tables, reorderings / gc in between, == / Hash / Ord) and random histories; on every snapshot td_ok_b, all handle pairs (edge equality vs table equality), the extracted td_vtable against the interpretation, and for every snapshot / call / snapshot the extracted state machine (tddh_step, seeded with the lifted pre-state) must leave the same slots with the same value tables (ocaml/tddh.ml).",
+    "level_note": "Trusted: Coq kernel, extraction, OCaml driver, Rust harness, public accessor API. The theorem is per snapshot; that every reachable manager state is well-formed is checked on the explored histories (C03's predicate), not proved for the Rust code. Concurrency is C07. TDD: reordering is not a constructor of the TDD state machine (the swap model is C08's LevelSwapT.v); histories with set_var_order are covered by the per-snapshot theorems + the explored histories.",
 }
 ALLOWED_AXIOMS = ()
 
